@@ -97,7 +97,11 @@ def gen_atom(rng, odd=0.1, strings=0.35, extras=0.2, deprecated=0.05, lists=0.1,
     rr = rng.random()
     if rr < lists:
         k = rng.randint(1, 3)
-        vs = ' '.join(rng.choice(pool) for _ in range(k))
+        # members are separated by any white space, possibly more than one character, with optional padding
+        seps = [' ', ' ', ' ', '  ', '\t', ' \t', '\n']
+        vs = ''.join(rng.choice(pool) + (rng.choice(seps) if i + 1 < k else '') for i in range(k))
+        if rng.random() < .15:
+            vs = rng.choice([' ', '\t']) + vs + rng.choice(['', ' '])
         return "%s %s %s" % (key, rng.choice(['in', 'not in']), q(rng, vs))
     if rr < lists + star and v[0].isdigit() and v.replace('.', '').isdigit():
         return "%s %s %s" % (key, rng.choice(['==', '!=']), q(rng, v + '.*'))
